@@ -51,9 +51,13 @@ theorem magic_offset_neg_eq (offset : Int) : magic_offset_neg offset = magicOffN
   simp only [magic_offset_neg, magicOffNeg, Int.fmod_eq_emod_of_nonneg _ (by decide : (0 : Int) ≤ 2), beq_iff_eq]
 
 theorem magic_poslen_eq (n : Int) : magic_poslen n = magicPosLen n := by
-  simp only [magic_poslen, magicPosLen, Int.fdiv_eq_ediv_of_nonneg _ (by decide : (0 : Int) ≤ 2)]
+  unfold magic_poslen magicPosLen
+  simp only [Int.fdiv_eq_ediv_of_nonneg _ (by decide : (0 : Int) ≤ 2)]
+  try omega
 
 theorem magic_neglen_eq (n : Int) : magic_neglen n = magicNegLen n := by
-  simp only [magic_neglen, magicNegLen, Int.fdiv_eq_ediv_of_nonneg _ (by decide : (0 : Int) ≤ 2)]
+  unfold magic_neglen magicNegLen
+  simp only [Int.fdiv_eq_ediv_of_nonneg _ (by decide : (0 : Int) ≤ 2)]
+  try omega
 
 end DirectVerif.Bridge.C04
